@@ -15,7 +15,7 @@ from mc.result import Result
 
 PROPERTY = 'C07'
 LEVEL = 'exploration'
-CASE_GUARD_S = 3600  # a case is a composite (one block of expressions x all texts ...)
+CASE_GUARD_S = {'quick': 300, 'thorough': 3600}  # a case is a composite (a block of expressions x all texts, ...)
 CHUNK = 4
 RULE = ('documents = sequences of <= 4 (thorough 5) items over 17 line kinds (header of each of the 6 phases, unknown header, malformed header, comment, blank, whitespace-only, '
         'one-line instruction, multi-line instruction whose here-document holds a header-like and a comment-like line, instruction with description on the previous / same line, '
